@@ -2,7 +2,7 @@
    (abstraction relation of fw_refines_pending), and the lemmas about the pieces of the model it talks about. *)
 From Coq Require Import List NArith Arith Bool Lia Permutation.
 From Base Require Import Bytes.
-From Fw Require Import Model Spec Run Lemmas.
+From Fw Require Import GenConsts Model Spec Run Lemmas.
 Import ListNotations.
 Open Scope N_scope.
 
@@ -218,7 +218,15 @@ Proof.
 Qed.
 
 (* ---------------------------------------------------------------- the outgoing Interest pipeline only adds out-records *)
-Definition lifetime_of (life : option N) : N := match life with Some l => l | None => default_lifetime end.
+Definition lifetime_of (life : option N) : N := match life with Some l => l | None => default_lifetime_in end.
+Definition lifetime_out (life : option N) : N := match life with Some l => l | None => default_lifetime_out end.
+
+(* checked on the constants translated from the source: an out-record never outlives the in-record of the Interest it forwards *)
+Lemma default_lifetimes : default_lifetime_out <= default_lifetime_in.
+Proof. vm_compute. discriminate. Qed.
+
+Lemma lifetime_out_le life : lifetime_out life <= lifetime_of life.
+Proof. destruct life; cbn; [lia|apply default_lifetimes]. Qed.
 
 Definition outs_ext (bound : N) (e e' : pite) : Prop :=
   pe_ins e' = pe_ins e /\ key e' = key e /\ pe_tok e' = pe_tok e /\ pe_q e' = pe_q e /\
@@ -233,14 +241,14 @@ Proof.
   intros o Ho. destruct (B5 o Ho) as [H|H]; auto.
 Qed.
 
-Lemma insert_outrec_ext now f nonce life n e : outs_ext (now + lifetime_of life) e (insert_outrec now f nonce life n e).
+Lemma insert_outrec_ext now f nonce life n e : outs_ext (now + lifetime_out life) e (insert_outrec now f nonce life n e).
 Proof.
   unfold insert_outrec, outs_ext; cbn. repeat split; auto.
   intros o Ho. apply put_out_in in Ho. destruct Ho as [-> |Ho]; auto.
 Qed.
 
 Lemma send_all_ext fs tidv now inface nonce life n hop nhs : forall e,
-  outs_ext (now + lifetime_of life) e (fst (send_all fs tidv now inface nonce life n hop nhs e)).
+  outs_ext (now + lifetime_out life) e (fst (send_all fs tidv now inface nonce life n hop nhs e)).
 Proof.
   induction nhs as [|h r IH]; intros e; cbn; [apply outs_ext_refl|].
   destruct (can_send fs inface hop n (fst h)).
@@ -251,11 +259,11 @@ Proof.
 Qed.
 
 Lemma strategy_interest_ext strategy fs tidv now inface nonce life n hop allowed tie e :
-  outs_ext (now + lifetime_of life) e (fst (fst (strategy_interest strategy fs tidv now inface nonce life n hop allowed tie e))).
+  outs_ext (now + lifetime_out life) e (fst (fst (strategy_interest strategy fs tidv now inface nonce life n hop allowed tie e))).
 Proof.
   unfold strategy_interest.
   destruct allowed as [|a0 ar]; [apply outs_ext_refl|].
-  destruct (suppressed now nonce e); [apply outs_ext_refl|].
+  destruct (suppressed strategy now nonce e); [apply outs_ext_refl|].
   destruct (strategy =? 1).
   - pose proof (send_all_ext fs tidv now inface nonce life n hop (a0 :: ar) e) as H.
     destruct (send_all fs tidv now inface nonce life n hop (a0 :: ar) e) as [e' os]; exact H.
@@ -474,7 +482,7 @@ Qed.
 Lemma Inv_pending t now pre e0 post sp f nonce life tok e1 pending prev e3 nm cbp mbf hint :
   Inv t (pre ++ e0 :: post) sp -> t <= now ->
   insert_inrec now f nonce life tok e0 = (e1, pending, prev) ->
-  outs_ext (now + lifetime_of life) (upd_expiry now e1) e3 ->
+  outs_ext (now + lifetime_out life) (upd_expiry now e1) e3 ->
   key e0 = (nm, cbp, mbf, hint) ->
   Inv now (pre ++ e3 :: post)
       (pend_upsert sp {| p_face := f; p_name := nm; p_cbp := cbp; p_mbf := mbf; p_hint := hint; p_utok := pe_tok e0;
@@ -567,7 +575,8 @@ Proof.
       * destruct (X5 o Ho) as [Ho'|Eo].
         -- rewrite U4, I3 in Ho'. destruct (D e0 o He0 Ho') as [H'|(p & H1 & H2 & H3)]; [left; lia|right].
            destruct (MONO p H1 H2) as (p' & M1 & M2 & M3). exists p'. split; [exact M1|]. split; [exact M2|lia].
-        -- right. exists pn. split; [exact N1|]. split; [apply G0, N2|]. rewrite Eo. exact N5.
+        -- right. exists pn. split; [exact N1|]. split; [apply G0, N2|]. rewrite Eo.
+           pose proof (lifetime_out_le life). unfold lt in N5. lia.
       * destruct (D x o (O x (or_intror H)) Ho) as [H'|(p & H1 & H2 & H3)]; [left; lia|right].
         exists p. split; [eapply OT; eauto|auto].
 Qed.
